@@ -991,8 +991,8 @@ func init() {
 							if nrep > 3 && tier == "quick" {
 								continue
 							}
-							if tier == "quick" && la != "C" && (n+li)%3 != 0 {
-								continue
+							if tier == "quick" && la != "C" && (n+li)%3 != 0 && !(len(sh) >= 2 && prodInts(sh) <= 6 && nrep == 1) {
+								continue // (non-contiguous operands: every axis of the small matrices, a sample of the rest)
 							}
 							cfg := map[string]interface{}{"dtype": dts[n%len(dts)], "axis": axis, "nrep": nrep, "maxcount": maxc, "variant": []string{"method", "func"}[n%2], "layouts": la, "shape0": sh}
 							out = append(out, mkInst("vhC10Repeat", cfg, "dtype", "axis", "nrep", "variant", "layouts", "shape0"))
